@@ -8,42 +8,50 @@ def liftP {α} (r : Except Err α) (rest : List Ev) : Except Err (α × List Ev)
   | .ok b => .ok (b, rest)
   | .error e => .error e
 
-theorem capsLoop_refines (o : UriOracle) (cs : List CapLeaf) (hwf : ∀ c ∈ cs, Inert "capability" c.inner)
+theorem capsLoop_refines (c : RCfg) (o : UriOracle) (cs : List CapLeaf) (hwf : ∀ x ∈ cs, x.WF)
     (fuel : Nat) (raw : String) (acc : List Capability) (rest : List Ev)
     (hf : (cs.flatMap CapLeaf.render).length + 1 ≤ fuel) :
-    capsLoop o fuel raw acc (cs.flatMap CapLeaf.render ++ .end raw :: rest) = liftP (capsAbs o acc cs) rest := by
+    capsLoop c o fuel raw acc (cs.flatMap CapLeaf.render ++ .end raw :: rest) = liftP (capsAbs c o acc cs) rest := by
   induction cs generalizing fuel acc with
   | nil =>
     obtain ⟨f, rfl⟩ : ∃ f, fuel = f + 1 := ⟨fuel - 1, by omega⟩
     simp [capsLoop, capsAbs, liftP]
-  | cons c cs ih =>
+  | cons x cs ih =>
     obtain ⟨f, rfl⟩ : ∃ f, fuel = f + 1 := ⟨fuel - 1, by omega⟩
-    have hwf' : ∀ c ∈ cs, Inert "capability" c.inner := fun x hx => hwf x (by simp [hx])
-    have hi : Inert "capability" c.inner := hwf c (by simp)
+    have hwf' : ∀ x ∈ cs, x.WF := fun y hy => hwf y (by simp [hy])
     simp only [List.flatMap_cons, List.append_assoc, List.length_append] at hf ⊢
-    simp only [CapLeaf.render, leaf_append, capsLoop, capsAbs, baseTag_is, beq_self_eq_true, if_true,
-      readText_leaf _ _ _ _ hi]
-    cases hp : parseCapability o c.span with
-    | error e => simp [liftP]
-    | ok v =>
-      simp only []
-      exact ih hwf' f _ (by simp only [CapLeaf.render, leaf_length] at hf; omega)
+    cases x with
+    | comment =>
+      simp only [CapLeaf.render, List.cons_append, List.nil_append, capsLoop, capsAbs]
+      by_cases hc : c.capsComment = true
+      · simp only [hc, if_true]
+        exact ih hwf' f _ (by simp only [CapLeaf.render, List.length_cons, List.length_nil] at hf; omega)
+      · simp [hc, liftP]
+    | cap span inner =>
+      have hi : Inert "capability" inner := hwf (.cap span inner) (by simp)
+      simp only [CapLeaf.render, leaf_append, capsLoop, capsAbs, baseTag_is, beq_self_eq_true, if_true,
+        readText_leaf _ _ _ _ hi]
+      cases hp : parseCapability o (c.tok span) with
+      | error e => simp [liftP]
+      | ok v =>
+        simp only []
+        exact ih hwf' f _ (by simp only [CapLeaf.render, leaf_length] at hf; omega)
 
-theorem helloLoop_refines (o : UriOracle) (cs : List HChild) (hwf : ∀ c ∈ cs, c.WF)
+theorem helloLoop_refines (c : RCfg) (o : UriOracle) (cs : List HChild) (hwf : ∀ x ∈ cs, x.WF)
     (fuel : Nat) (raw : String) (caps : Option (List Capability)) (sid : Option Nat) (rest : List Ev)
     (hf : (cs.flatMap HChild.render).length + 1 ≤ fuel) :
-    helloLoop o fuel raw caps sid (cs.flatMap HChild.render ++ .end raw :: rest)
-      = liftP (helloAbs o caps sid cs) rest := by
+    helloLoop c o fuel raw caps sid (cs.flatMap HChild.render ++ .end raw :: rest)
+      = liftP (helloAbs c o caps sid cs) rest := by
   induction cs generalizing fuel caps sid with
   | nil =>
     obtain ⟨f, rfl⟩ : ∃ f, fuel = f + 1 := ⟨fuel - 1, by omega⟩
     simp only [List.flatMap_nil, List.nil_append, helloLoop, beq_self_eq_true, if_true, helloAbs]
     cases caps <;> cases sid <;> simp [liftP]
-  | cons c cs ih =>
+  | cons x cs ih =>
     obtain ⟨f, rfl⟩ : ∃ f, fuel = f + 1 := ⟨fuel - 1, by omega⟩
-    have hwf' : ∀ c ∈ cs, c.WF := fun x hx => hwf x (by simp [hx])
+    have hwf' : ∀ x ∈ cs, x.WF := fun y hy => hwf y (by simp [hy])
     simp only [List.flatMap_cons, List.append_assoc, List.length_append] at hf ⊢
-    cases c with
+    cases x with
     | comment =>
       simp only [HChild.render, List.cons_append, List.nil_append, helloLoop, helloAbs]
       exact ih hwf' f caps sid (by simp only [HChild.render, List.length_cons, List.length_nil] at hf; omega)
@@ -56,13 +64,13 @@ theorem helloLoop_refines (o : UriOracle) (cs : List HChild) (hwf : ∀ c ∈ cs
       | some n => simp [liftP]
       | none =>
         simp only [Option.isNone_none, if_true, readText_leaf _ _ _ _ hi]
-        cases hp : parseSessionId s with
+        cases hp : parseSessionId (c.tok s) with
         | none => simp [liftP]
         | some n =>
           simp only []
           exact ih hwf' f caps (some n) (by simp only [HChild.render, leaf_length] at hf; omega)
     | caps r ccs =>
-      have hwc : ∀ c ∈ ccs, Inert "capability" c.inner := hwf (.caps r ccs) (by simp)
+      have hwc : ∀ y ∈ ccs, y.WF := hwf (.caps r ccs) (by simp)
       simp only [HChild.render, List.cons_append, List.append_assoc, List.length_cons, List.length_append,
         List.length_nil] at hf ⊢
       rw [helloLoop, helloAbs]
@@ -73,8 +81,8 @@ theorem helloLoop_refines (o : UriOracle) (cs : List HChild) (hwf : ∀ c ∈ cs
       | some v => simp [Tag.is, liftP]
       | none =>
         simp only [Option.isNone_none, if_true, List.nil_append]
-        rw [capsLoop_refines o ccs hwc f r [] _ (by omega)]
-        cases hres : capsAbs o [] ccs with
+        rw [capsLoop_refines c o ccs hwc f r [] _ (by omega)]
+        cases hres : capsAbs c o [] ccs with
         | error e => simp [liftP]
         | ok v =>
           simp only [liftP]
@@ -90,7 +98,7 @@ theorem helloDoc_eq (raw : String) (attrs : List AttrItem) (cs : List HChild) :
 /-- **Refinement for session establishment** on every document of the hello grammar. -/
 theorem establish_doc (c : RCfg) (adv : Bool) (o : UriOracle) (raw : String) (attrs : List AttrItem)
     (cs : List HChild) (hwf : ∀ x ∈ cs, x.WF) :
-    establish c adv o (helloDoc raw attrs cs) = establishAbs adv o cs := by
+    establish c adv o (helloDoc raw attrs cs) = establishAbs c adv o cs := by
   unfold establish establishAbs
   rw [helloDoc_eq]
   simp only [List.length_cons, List.length_append, List.length_nil]
@@ -98,8 +106,8 @@ theorem establish_doc (c : RCfg) (adv : Bool) (o : UriOracle) (raw : String) (at
   have ht : (helloTag raw attrs).is BASE "hello" = true := by simp [Tag.is, helloTag]
   simp only [ht, if_true]
   have hraw : (helloTag raw attrs).raw = raw := rfl
-  rw [hraw, helloLoop_refines o cs hwf _ raw none none [.eof] (by omega)]
-  cases helloAbs o none none cs with
+  rw [hraw, helloLoop_refines c o cs hwf _ raw none none [.eof] (by omega)]
+  cases helloAbs c o none none cs with
   | error e => simp [liftP]
   | ok h => simp only [liftP, fromXmlHello]; cases highestCommon (clientAdvertised adv) h.caps <;> rfl
 
